@@ -947,25 +947,27 @@ def nostd_builds(ctx, vd, sets):
         target = os.path.join(ctx.build_root, "nostd_lib", "target%d" % i)
         res = []
         for feats in sets[i::lanes]:
-            cmd = ["cargo", "build", "--lib", "--offline", "--quiet", "--no-default-features", "--manifest-path", os.path.join(ctx.repo, "fast-tlsh", "Cargo.toml")]
-            if feats:
-                cmd += ["--features", ",".join(feats)]
-            p = subprocess.run(cmd, env=cargo_env({"CARGO_TARGET_DIR": target}), stdout=subprocess.PIPE, stderr=subprocess.STDOUT, text=True, errors="replace")
-            res.append((feats, cmd, p.returncode, p.stdout))
+            # both profiles: code under cfg(debug_assertions) / cfg(not(debug_assertions)) exists in only one of them
+            for prof in ([], ["--release"]):
+                cmd = ["cargo", "build", "--lib", "--offline", "--quiet", "--no-default-features", "--manifest-path", os.path.join(ctx.repo, "fast-tlsh", "Cargo.toml")] + prof
+                if feats:
+                    cmd += ["--features", ",".join(feats)]
+                p = subprocess.run(cmd, env=cargo_env({"CARGO_TARGET_DIR": target}), stdout=subprocess.PIPE, stderr=subprocess.STDOUT, text=True, errors="replace")
+                res.append((feats + prof, cmd, p.returncode, p.stdout))
         return res
     with ThreadPoolExecutor(max_workers=lanes) as ex:
         results = [x for l in ex.map(lane, range(lanes)) for x in l]
     ok = 0
-    for feats, cmd, code, out in results:
+    for bi, (feats, cmd, code, out) in enumerate(results):
         if code != 0:
             err = [l for l in out.splitlines() if l.startswith("error")][:3]
-            vd.add_violation("nostd_lib", "c18nostd", {"class": "no-std-no-alloc-build-fails:%s" % ("+".join(feats) or "none"), "index": 0, "engine": "build",
-                                                       "detail": "cargo build --lib --no-default-features --features '%s' failed: %s" % (",".join(feats), " | ".join(err)),
+            vd.add_violation("nostd_lib", "c18nostd", {"class": "no-std-no-alloc-build-fails:%s" % ("+".join(feats) or "none"), "index": bi, "engine": "build",
+                                                       "detail": "cargo build --lib --no-default-features %s --features '%s' failed: %s" % ("--release" if "--release" in feats else "(dev profile)", ",".join(f for f in feats if f != "--release"), " | ".join(err)),
                                                        "history": {"command": " ".join(cmd)}, "argv": cmd})
         else:
             ok += 1
-    ctx.log("no-std/no-alloc library builds: %d/%d ok" % (ok, len(sets)))
-    vd.extra["nostd_noalloc_builds"] = {"ok": ok, "of": len(sets), "feature_sets": sets, "note": "build check, not simulation"}
+    ctx.log("no-std/no-alloc library builds: %d/%d ok" % (ok, len(results)))
+    vd.extra["nostd_noalloc_builds"] = {"ok": ok, "of": len(results), "feature_sets": sets, "profiles": ["dev", "release"], "note": "build check, not simulation"}
 
 
 def alloc_world(ctx, vd, config, binary, procs, per_proc, hard):
